@@ -48,7 +48,7 @@ theorem pin_cue_listAppendJSON : Gen.C10.pin_cue_listAppendJSON = "975c4ce28ad58
 theorem pin_scanner_Scanner_scanString : Gen.C10.pin_scanner_Scanner_scanString = "983ef5dcdf6576cb" := by decide
 theorem pin_scanner_Scanner_scanEscape : Gen.C10.pin_scanner_Scanner_scanEscape = "797f428a147aef6f" := by decide
 theorem pin_scanner_Scanner_next : Gen.C10.pin_scanner_Scanner_next = "4dd23fe72be50da9" := by decide
-theorem pin_literal_NumInfo_decimal : Gen.C10.pin_literal_NumInfo_decimal = "86ad380582be13ad" := by decide
+theorem pin_literal_NumInfo_decimal : Gen.C10.pin_literal_NumInfo_decimal = "aca1b0e83663d828" := by decide
 theorem pin_literal_NumInfo_Decimal : Gen.C10.pin_literal_NumInfo_Decimal = "8cfcbed371c9b5b7" := by decide
 theorem pin_adt_UnaryExpr_evaluate : Gen.C10.pin_adt_UnaryExpr_evaluate = "ad1448027c0e3bcb" := by decide
 theorem pin_literal_Unquote : Gen.C10.pin_literal_Unquote = "7b1fcfe81d6cf8c0" := by decide
@@ -63,7 +63,7 @@ theorem pin_literal_ParseNum : Gen.C10.pin_literal_ParseNum = "f62ad6ae0fe132dc"
 theorem pin_literal_NumInfo_next : Gen.C10.pin_literal_NumInfo_next = "fec08a8bae3fc87b" := by decide
 theorem pin_literal_NumInfo_digitVal : Gen.C10.pin_literal_NumInfo_digitVal = "b72d7578cbdf111a" := by decide
 theorem pin_literal_NumInfo_scanMantissa : Gen.C10.pin_literal_NumInfo_scanMantissa = "8f02c5a2db5ecd93" := by decide
-theorem pin_literal_NumInfo_scanNumber : Gen.C10.pin_literal_NumInfo_scanNumber = "225e8ba521fd787b" := by decide
+theorem pin_literal_NumInfo_scanNumber : Gen.C10.pin_literal_NumInfo_scanNumber = "a20a9ef43ec46211" := by decide
 theorem pin_scanner_Scanner_scanNumber : Gen.C10.pin_scanner_Scanner_scanNumber = "e16e2044fdc3af71" := by decide
 theorem pin_scanner_Scanner_scanMantissa : Gen.C10.pin_scanner_Scanner_scanMantissa = "d6c742f674995ae6" := by decide
 theorem pin_pkgjson_Marshal : Gen.C10.pin_pkgjson_Marshal = "65b3ee95f457ab93" := by decide
